@@ -1,0 +1,261 @@
+//! Verification hook (only compiled with `--cfg o2o_verif`): stand-ins for `std::collections::{HashMap, HashSet}`
+//! whose *iteration order* is decided by an order oracle installed by a test harness, so that a model checker can
+//! enumerate every iteration order (hash seeds cannot be controlled from outside). Lookups and mutations are passed
+//! through to the std containers (built with a fixed-key hasher). Without an oracle the order is the deterministic
+//! base order. Nothing in this file is used in a normal build.
+
+use std::borrow::Borrow;
+use std::cell::RefCell;
+use std::collections::hash_map::DefaultHasher;
+use std::hash::{BuildHasherDefault, Hash};
+use std::ops::{Deref, DerefMut};
+
+type Fixed = BuildHasherDefault<DefaultHasher>;
+
+thread_local! {
+    static ORACLE: RefCell<Option<Box<dyn FnMut(usize) -> Vec<usize>>>> = RefCell::new(None);
+    static EVENTS: RefCell<Vec<usize>> = RefCell::new(Vec::new());
+}
+
+/// Installs the order oracle for the current thread: called with the number of items of a container that is about
+/// to be iterated, returns the permutation to iterate them in.
+pub fn set_order_oracle(f: Option<Box<dyn FnMut(usize) -> Vec<usize>>>) {
+    ORACLE.with(|o| *o.borrow_mut() = f);
+}
+
+/// Sizes of the containers iterated since the last call (one entry per iteration event).
+pub fn take_events() -> Vec<usize> {
+    EVENTS.with(|e| std::mem::take(&mut *e.borrow_mut()))
+}
+
+fn reorder<T>(items: Vec<T>) -> Vec<T> {
+    let n = items.len();
+    EVENTS.with(|e| e.borrow_mut().push(n));
+    let perm = ORACLE.with(|o| match o.borrow_mut().as_mut() {
+        Some(f) => f(n),
+        None => (0..n).collect(),
+    });
+    assert!(perm.len() == n, "order oracle returned a permutation of the wrong length");
+    let mut slots: Vec<Option<T>> = items.into_iter().map(Some).collect();
+    perm.into_iter().map(|i| slots[i].take().expect("order oracle returned a non-permutation")).collect()
+}
+
+#[derive(Clone, Debug)]
+pub struct HashMap<K, V>(std::collections::HashMap<K, V, Fixed>);
+
+impl<K, V> Default for HashMap<K, V> {
+    fn default() -> Self {
+        HashMap(std::collections::HashMap::default())
+    }
+}
+
+impl<K: Eq + Hash, V> HashMap<K, V> {
+    pub fn new() -> Self {
+        Self::default()
+    }
+    pub fn with_capacity(n: usize) -> Self {
+        HashMap(std::collections::HashMap::with_capacity_and_hasher(n, Fixed::default()))
+    }
+    pub fn insert(&mut self, k: K, v: V) -> Option<V> {
+        self.0.insert(k, v)
+    }
+    pub fn len(&self) -> usize {
+        self.0.len()
+    }
+    pub fn is_empty(&self) -> bool {
+        self.0.is_empty()
+    }
+    pub fn get<Q: ?Sized + Hash + Eq>(&self, k: &Q) -> Option<&V> where K: Borrow<Q> {
+        self.0.get(k)
+    }
+    pub fn get_mut<Q: ?Sized + Hash + Eq>(&mut self, k: &Q) -> Option<&mut V> where K: Borrow<Q> {
+        self.0.get_mut(k)
+    }
+    pub fn contains_key<Q: ?Sized + Hash + Eq>(&self, k: &Q) -> bool where K: Borrow<Q> {
+        self.0.contains_key(k)
+    }
+    pub fn remove<Q: ?Sized + Hash + Eq>(&mut self, k: &Q) -> Option<V> where K: Borrow<Q> {
+        self.0.remove(k)
+    }
+    pub fn clear(&mut self) {
+        self.0.clear()
+    }
+    pub fn entry(&mut self, k: K) -> std::collections::hash_map::Entry<'_, K, V> {
+        self.0.entry(k)
+    }
+    pub fn iter(&self) -> std::vec::IntoIter<(&K, &V)> {
+        reorder(self.0.iter().collect()).into_iter()
+    }
+    pub fn iter_mut(&mut self) -> std::vec::IntoIter<(&K, &mut V)> {
+        reorder(self.0.iter_mut().collect()).into_iter()
+    }
+    pub fn keys(&self) -> std::vec::IntoIter<&K> {
+        reorder(self.0.keys().collect()).into_iter()
+    }
+    pub fn values(&self) -> std::vec::IntoIter<&V> {
+        reorder(self.0.values().collect()).into_iter()
+    }
+    pub fn values_mut(&mut self) -> std::vec::IntoIter<&mut V> {
+        reorder(self.0.values_mut().collect()).into_iter()
+    }
+    pub fn into_keys(self) -> std::vec::IntoIter<K> {
+        reorder(self.0.into_keys().collect()).into_iter()
+    }
+    pub fn into_values(self) -> std::vec::IntoIter<V> {
+        reorder(self.0.into_values().collect()).into_iter()
+    }
+    pub fn drain(&mut self) -> std::vec::IntoIter<(K, V)> {
+        reorder(self.0.drain().collect()).into_iter()
+    }
+    pub fn retain<F: FnMut(&K, &mut V) -> bool>(&mut self, f: F) {
+        self.0.retain(f)
+    }
+}
+
+impl<K: Eq + Hash, V> IntoIterator for HashMap<K, V> {
+    type Item = (K, V);
+    type IntoIter = std::vec::IntoIter<(K, V)>;
+    fn into_iter(self) -> Self::IntoIter {
+        reorder(self.0.into_iter().collect()).into_iter()
+    }
+}
+
+impl<'a, K: Eq + Hash, V> IntoIterator for &'a HashMap<K, V> {
+    type Item = (&'a K, &'a V);
+    type IntoIter = std::vec::IntoIter<(&'a K, &'a V)>;
+    fn into_iter(self) -> Self::IntoIter {
+        self.iter()
+    }
+}
+
+impl<K: Eq + Hash, V> FromIterator<(K, V)> for HashMap<K, V> {
+    fn from_iter<I: IntoIterator<Item = (K, V)>>(iter: I) -> Self {
+        HashMap(iter.into_iter().collect())
+    }
+}
+
+impl<K: Eq + Hash, V> Extend<(K, V)> for HashMap<K, V> {
+    fn extend<I: IntoIterator<Item = (K, V)>>(&mut self, iter: I) {
+        self.0.extend(iter)
+    }
+}
+
+impl<K: Eq + Hash, V, const N: usize> From<[(K, V); N]> for HashMap<K, V> {
+    fn from(a: [(K, V); N]) -> Self {
+        a.into_iter().collect()
+    }
+}
+
+impl<K: Eq + Hash, Q: ?Sized + Eq + Hash, V> std::ops::Index<&Q> for HashMap<K, V> where K: Borrow<Q> {
+    type Output = V;
+    fn index(&self, k: &Q) -> &V {
+        &self.0[k]
+    }
+}
+
+#[derive(Clone, Debug)]
+pub struct HashSet<T>(std::collections::HashSet<T, Fixed>);
+
+impl<T> Default for HashSet<T> {
+    fn default() -> Self {
+        HashSet(std::collections::HashSet::default())
+    }
+}
+
+impl<T: Eq + Hash> HashSet<T> {
+    pub fn new() -> Self {
+        Self::default()
+    }
+    pub fn with_capacity(n: usize) -> Self {
+        HashSet(std::collections::HashSet::with_capacity_and_hasher(n, Fixed::default()))
+    }
+    pub fn insert(&mut self, v: T) -> bool {
+        self.0.insert(v)
+    }
+    pub fn len(&self) -> usize {
+        self.0.len()
+    }
+    pub fn is_empty(&self) -> bool {
+        self.0.is_empty()
+    }
+    pub fn contains<Q: ?Sized + Hash + Eq>(&self, v: &Q) -> bool where T: Borrow<Q> {
+        self.0.contains(v)
+    }
+    pub fn get<Q: ?Sized + Hash + Eq>(&self, v: &Q) -> Option<&T> where T: Borrow<Q> {
+        self.0.get(v)
+    }
+    pub fn remove<Q: ?Sized + Hash + Eq>(&mut self, v: &Q) -> bool where T: Borrow<Q> {
+        self.0.remove(v)
+    }
+    pub fn clear(&mut self) {
+        self.0.clear()
+    }
+    pub fn iter(&self) -> std::vec::IntoIter<&T> {
+        reorder(self.0.iter().collect()).into_iter()
+    }
+    pub fn drain(&mut self) -> std::vec::IntoIter<T> {
+        reorder(self.0.drain().collect()).into_iter()
+    }
+    pub fn retain<F: FnMut(&T) -> bool>(&mut self, f: F) {
+        self.0.retain(f)
+    }
+}
+
+impl<T: Eq + Hash> IntoIterator for HashSet<T> {
+    type Item = T;
+    type IntoIter = std::vec::IntoIter<T>;
+    fn into_iter(self) -> Self::IntoIter {
+        reorder(self.0.into_iter().collect()).into_iter()
+    }
+}
+
+impl<'a, T: Eq + Hash> IntoIterator for &'a HashSet<T> {
+    type Item = &'a T;
+    type IntoIter = std::vec::IntoIter<&'a T>;
+    fn into_iter(self) -> Self::IntoIter {
+        self.iter()
+    }
+}
+
+impl<T: Eq + Hash> FromIterator<T> for HashSet<T> {
+    fn from_iter<I: IntoIterator<Item = T>>(iter: I) -> Self {
+        HashSet(iter.into_iter().collect())
+    }
+}
+
+impl<T: Eq + Hash> Extend<T> for HashSet<T> {
+    fn extend<I: IntoIterator<Item = T>>(&mut self, iter: I) {
+        self.0.extend(iter)
+    }
+}
+
+impl<T: Eq + Hash, const N: usize> From<[T; N]> for HashSet<T> {
+    fn from(a: [T; N]) -> Self {
+        a.into_iter().collect()
+    }
+}
+
+// the long tail of read-only methods (capacity, is_subset, ...) is reachable through Deref; iteration through Deref
+// would bypass the oracle, so the inherent methods above shadow every iterating method of the std containers.
+impl<K, V> Deref for HashMap<K, V> {
+    type Target = std::collections::HashMap<K, V, Fixed>;
+    fn deref(&self) -> &Self::Target {
+        &self.0
+    }
+}
+impl<K, V> DerefMut for HashMap<K, V> {
+    fn deref_mut(&mut self) -> &mut Self::Target {
+        &mut self.0
+    }
+}
+impl<T> Deref for HashSet<T> {
+    type Target = std::collections::HashSet<T, Fixed>;
+    fn deref(&self) -> &Self::Target {
+        &self.0
+    }
+}
+impl<T> DerefMut for HashSet<T> {
+    fn deref_mut(&mut self) -> &mut Self::Target {
+        &mut self.0
+    }
+}
